@@ -249,6 +249,7 @@ namespace ratio
         reason.emplace(&atm, af);
 
         // we check if we need to notify the new atom to any smart types..
+        bool smart = false;
         if (&atm.get_type().get_scope() != this)
         {
             std::queue<type *> q;
@@ -256,11 +257,21 @@ namespace ratio
             while (!q.empty())
             {
                 if (smart_type *st = dynamic_cast<smart_type *>(q.front()))
+                {
                     st->new_atom(*af);
+                    smart = true;
+                }
                 for (const auto &st : q.front()->get_supertypes())
                     q.push(st);
                 q.pop();
             }
+        }
+
+        if (is_fact && !smart && (is_interval(atm.get_type()) || is_impulse(atm.get_type())))
+        { // the temporal structure of intervals and impulses holds for facts as well (the smart types take care of their own facts)..
+            set_ni(lit(atm.get_sigma()));
+            (is_interval(atm.get_type()) ? get_interval() : get_impulse()).apply_rule(atm);
+            restore_ni();
         }
     }
 
